@@ -42,7 +42,9 @@ def _same(name, s1, s2, case, keys=None):
             raise Violation("%s: score %r changes from %r to %r under the transformation; case %r" % (name, k, x, y, case))
 
 
-SHIFTS = [0.0, 0.25, 1.0, 0.0625, 3.5, 10.0, 100.0, 7.015625]
+# shifts are exactly representable; 1/32 and 1/64 put lattice times on rounding ties of the 4th/5th decimal (x.xxxx5), where a
+# library that rounds TIMES instead of DISTANCES starts to depend on the origin
+SHIFTS = [0.0, 0.25, 1.0, 0.0625, 3.5, 10.0, 100.0, 7.015625, 0.03125, 0.015625, 5.09375]
 
 
 @st.composite
@@ -89,7 +91,9 @@ def pred_beat_kw(case, ctx):
 @st.composite
 def notes_case(draw):
     c = draw(gt.notes_case())
-    c["shift"] = draw(st.sampled_from(SHIFTS))
+    c["shift"] = draw(st.sampled_from(SHIFTS + [0.03125, 0.03125, 0.09375, 0.09375]))
+    if draw(st.booleans()):
+        c["onset_tolerance"] = draw(st.sampled_from([0.0625, 0.0625, 0.125]))    # on the lattice: pairs exactly at the tolerance exist
     return c
 
 
